@@ -101,7 +101,7 @@ fn main() {
             for &(n, m, p) in [(8usize, 2usize, 2usize), (9, 3, 2)].iter() {
                 for wk in 0..3 {
                     let w: Option<DVector<f64>> = match wk { 0 => None, 1 => Some(DVector::from_fn(n, |i, _| 1.0 / (1.0 + i as f64))), _ => Some(DVector::from_fn(n, |i, _| if i == 1 || i == 4 { 0.0 } else { 0.5 + 0.25 * i as f64 })) };
-                    for s in 1..=2usize {
+                    for s in 1..=3usize {
                         let y = ydata(n, s);
                         let (a1, a2) = (vec![1.3, 4.0], vec![2.1, 6.5]);
                         let cfg = format!("N={} M={} P={} S={} weights={} alpha={:?}", n, m, p, s, ["none", "1/(1+i)", "zeros at rows 1,4"][wk], a2);
@@ -136,7 +136,7 @@ fn main() {
                     }
                 }
             }
-            if !found { println!("NOT-REPRODUCED: 12 configurations agree with the independent oracle"); }
+            if !found { println!("NOT-REPRODUCED: 18 configurations agree with the independent oracle"); }
         }
         // C12-C14: statistics of a converged weighted fit against their defining formulas (recomputed from the public model API)
         "stats_sweep" => {
